@@ -66,7 +66,8 @@ class _T(object):
     @staticmethod
     def Func(file, qualname): return Ty('Func', file, qualname)   # parameter bound to one repository function
     @staticmethod
-    def New(cls): return Ty('New', cls)          # `self` of an __init__: a fresh record
+    def New(cls, **fields):                      # `self` of an __init__: a fresh record; with fields: a record that already has those (symbolic) attributes
+        t = Ty('New', cls); t.init_fields = dict(fields); return t
     @staticmethod
     def Dict(k, v): return Ty('Dict', k, v)      # symbolic finite map with insertion order not observed
     @staticmethod
